@@ -185,7 +185,8 @@ def check_sparse(case, rec):
     Md = op.as_matrix()
     Ms = op.as_matrix(sparse_format=True)
     ref = cmat(A0)
-    scale = max(np.max(np.abs(ref)), 1e-300) if ref.size else 1.0
+    # rounding scale: product of the site-tensor norms (entries of the matrix may be small through cancellation)
+    scale = max(tmag(A0), 1e-300)
     require(Md.shape == ref.shape and tuple(Ms.shape) == ref.shape, 'wrong shape of the matrix form', dense=Md.shape, sparse=Ms.shape)
     e1 = np.max(np.abs(np.asarray(Md) - ref)) if ref.size else 0
     e2 = np.max(np.abs(np.asarray(Ms.todense()) - ref)) if ref.size else 0
